@@ -746,6 +746,10 @@ def _generate_all_revisions(
     # couple of seconds only should be needed to load the whole graph and the
     # other graph operations needed are even faster than that -- vila 100201
     initial_revisions = []
+    if start_rev_id is not None and end_rev_id is None:
+        # An open-ended range ends at the branch tip; the graph queries below
+        # need a real revision id.
+        end_rev_id = branch.last_revision()
     if delayed_graph_generation:
         try:
             for rev_id, revno, depth in _linear_view_revisions(
